@@ -195,6 +195,52 @@ theorem section_strict_local_partial (g : Opts) (assign : Changes) (n : Nat) :
     rw [List.any_eq_false]; intro x hx; rw [List.eq_of_mem_replicate hx]; simp
   rw [this]; rfl
 
+/-! ### `strict` inside one source, and across sources -/
+
+/-- an explicit key of the `[mypy]` section wins over `strict = True` of the same section — the model has no
+    position for `strict`, i.e. in either order — when the command line is silent on it -/
+theorem strict_explicit_key_wins (dflt : Opts) (A ini : Changes) (iniStrict : Bool) (cli : List CliArg)
+    (k : Str) (v : Val) (hk : ini.lookup k = some v) (hc : ∀ a ∈ cli, a.key ≠ k) :
+    (globalOptionsStrict dflt A iniStrict ini false cli).get k = v := by
+  simp only [globalOptionsStrict, Opts.processErrorCodes]
+  rw [applyCli_untouched cli _ k hc]
+  simp [setAll, hk]
+
+/-- `strict = True` expands to its assignments for every strict flag the section does not mention -/
+theorem strict_expands (dflt : Opts) (A ini : Changes) (cli : List CliArg) (k : Str) (b : Val)
+    (hA : A.lookup k = some b) (hk : ini.lookup k = none) (hc : ∀ a ∈ cli, a.key ≠ k) :
+    (globalOptionsStrict dflt A true ini false cli).get k = b := by
+  simp only [globalOptionsStrict, Opts.processErrorCodes]
+  rw [applyCli_untouched cli _ k hc]
+  simp [setAll, hk, hA]
+
+/-- `--strict` on the command line beats an explicit key of the config file (command line over config) … -/
+theorem cli_strict_over_config_key (dflt : Opts) (A ini : Changes) (iniStrict : Bool) (cli : List CliArg)
+    (k : Str) (b : Val) (hA : A.lookup k = some b) (hc : ∀ a ∈ cli, a.key ≠ k) :
+    (globalOptionsStrict dflt A iniStrict ini true cli).get k = b := by
+  simp only [globalOptionsStrict, Opts.processErrorCodes]
+  rw [applyCli_untouched cli _ k hc]
+  simp [setAll, hA]
+
+/-- … and an explicit command-line flag beats strict from either source -/
+theorem cli_flag_over_strict (dflt : Opts) (A ini : Changes) (iniStrict cliStrict : Bool)
+    (pre post : List CliArg) (k : Str) (v : Val) (h : ∀ a ∈ post, a.key ≠ k) :
+    (globalOptionsStrict dflt A iniStrict ini cliStrict (pre ++ CliArg.store k v :: post)).get k = v := by
+  simp only [globalOptionsStrict, Opts.processErrorCodes]
+  exact applyCli_store_last pre post _ k v h
+
+/-- **strict_source_equiv.**  `strict = True` plus explicit keys in the config file gives, option for option,
+    what `--strict` plus the same settings as command-line flags gives (store-type flags, distinct keys) -/
+theorem strict_source_equiv (dflt : Opts) (A : Changes) (k : Str) (v : Val) (x : Str) :
+    (globalOptionsStrict dflt A true [(k, v)] false []).get x =
+    (globalOptionsStrict dflt A false [] true [CliArg.store k v]).get x := by
+  simp only [globalOptionsStrict, Opts.processErrorCodes, applyCli]
+  unfold setKey setAll
+  by_cases h : x = k
+  · subst h; simp
+  · have hb : (x == k) = false := by simpa using h
+    simp [hb, List.lookup_cons]
+
 /-! ### from the config file to the section table -/
 
 /-- a section applies to each of its patterns: when no pattern is named by two sections, `mypy.ini` /
@@ -299,6 +345,11 @@ theorem per_module_flags_inline_ok : ∀ k ∈ perModule, perModuleSettable genT
 theorem strict_flags_ok : ∀ d ∈ strictFlags, strictAssignmentOk genTemplate d = true := by
   have h : strictOkB = true := by decide +kernel
   exact fun d hd => List.all_eq_true.mp h d hd
+
+/-- every strict flag has an opposite on the command line whose config-file spelling (ini and toml) resolves
+    to the same option with the opposite value: "strict plus one flag turned back" is expressible in every
+    source -/
+theorem strict_opposites_expressible : strictOppositeB = true := by decide +kernel
 
 /-- the exemption lists only name flags and options that exist -/
 theorem exemptions_live : exemptionsLiveB = true := by decide +kernel
